@@ -756,6 +756,11 @@ ITEMS.append(('pr_vq', lambda: G.emit_pattern_roles('pr_vq', [(VQ, 'VectorQuanti
                                                               (VQ, 'VectorQuantize.get_codes_from_indices'), (VQ, 'VectorQuantize.forward.calculate_ce_loss')])))
 ITEMS.append(('pr_scalar', lambda: G.emit_pattern_roles('pr_scalar', [(FSQF, 'FSQ.forward'), (FSQF, 'FSQ.indices_to_codes'), (LFQF, 'LFQ.forward'), (LFQF, 'LFQ.indices_to_codes')])))
 
+ITEMS.append(('pr_more', lambda: G.emit_pattern_roles('pr_more', [
+    (RVQ, 'ResidualVQ.get_codes_from_indices'), (RFSQ, 'ResidualFSQ.get_codes_from_indices'), (RFSQ, 'ResidualFSQ.forward'),
+    (RLFQ, 'ResidualLFQ.get_codes_from_indices'), (RSVQ, 'ResidualSimVQ.get_codes_from_indices'),
+    (SIMVQ, 'SimVQ.forward'), (SIMVQ, 'SimVQ.indices_to_codes'), (LQ, 'LatentQuantize.forward'), (LQ, 'LatentQuantize.indices_to_codes')])))
+
 ITEMS = [(n, f) for n, f in ITEMS if f is not None]
 
 
